@@ -1,9 +1,90 @@
-import LSProofs.Wf
-/-! # C03 — placeholder while the refinement development is being written (see DESIGN 4.4) -/
+import LSProofs.StepSpec
+/-!
+# C03 — heap buffers: freed exactly once, after the last handle, never touched after
+
+`Wf` (LSProofs/Wf.lean) says, for every live block: its reference count equals the number of
+handles of the pool pointing at it, is at least 1, its capacity is within the length field, it
+holds exactly `cap` bytes and was allocated with `HEADER + cap` bytes — and every handle points at
+a live block that covers its length with valid UTF-8. The model raises an alarm (`Out.ub`) on any
+access through a released block, double free, free/realloc with a size other than the one
+allocated, out-of-extent access, or write to a block whose count is not 1.
+-/
 namespace LS.C03
 open LS
 
+/-- one step: the invariant is kept and no alarm is raised — for every operation, every argument,
+every allocator behaviour `rf`, including steps that return `ReserveError` or panic -/
+theorem step_wf (rf : Refuse) (w : World) (hw : Wf w) (op : Op) (hv : op.ArgsValid) :
+    Wf (step rf w op).1 ∧ ∀ u, (step rf w op).2 ≠ .ub u :=
+  ⟨(step_post rf hw op hv).1, (step_post rf hw op hv).2.1⟩
+
+/-- every finite history from a well-formed world: the invariant holds at the end, hence after
+every step -/
+theorem run_wf (rf : Refuse) (ops : List Op) : ∀ (w : World), Wf w → (∀ op ∈ ops, op.ArgsValid) → Wf (run rf w ops) := by
+  induction ops with
+  | nil => intro w hw _; exact hw
+  | cons op ops ih =>
+    intro w hw hv
+    exact ih _ (step_wf rf w hw op (hv op (List.mem_cons_self ..))).1 (fun o ho => hv o (List.mem_cons_of_mem _ ho))
+
+/-- no alarm anywhere along a history -/
+theorem run_no_ub (rf : Refuse) (ops : List Op) (w : World) (hw : Wf w) (hv : ∀ op ∈ ops, op.ArgsValid)
+    (pre : List Op) (op : Op) (post : List Op) (hsplit : ops = pre ++ op :: post) :
+    ∀ u, (step rf (run rf w pre) op).2 ≠ .ub u := by
+  subst hsplit
+  have hwpre : Wf (run rf w pre) := run_wf rf pre w hw (fun o ho => hv o (List.mem_append_left _ ho))
+  exact (step_wf rf _ hwpre op (hv op (by simp))).2
+
+/-- the reference count is the number of live handles on that buffer, after every step -/
+theorem rc_sound (w : World) (hw : Wf w) (a : Nat) (b : Block) (hb : w.heap.get? a = some b) :
+    b.rc = w.pool.countP (pointsTo a) ∧ 1 ≤ b.rc ∧ b.size = HEADER + b.cap ∧ b.data.length = b.cap :=
+  let ⟨k1, k2, _, k4, k5⟩ := hw.blocks a b hb
+  ⟨k1, k2, k5, k4⟩
+
+/-- when all handles are gone nothing remains allocated -/
+theorem no_leak (w : World) (hw : Wf w) (hdead : ∀ h, w.get h = none) : ∀ a, w.heap.get? a = none := by
+  intro a
+  cases hb : w.heap.get? a with
+  | none => rfl
+  | some b =>
+    exfalso
+    obtain ⟨k1, k2, _⟩ := hw.blocks a b hb
+    have hpos : 0 < w.pool.countP (pointsTo a) := by omega
+    obtain ⟨v, hm, hp⟩ := List.countP_pos_iff.1 hpos
+    cases v with
+    | none => simp [pointsTo] at hp
+    | some r =>
+      obtain ⟨i, hi⟩ := getH_of_mem hm
+      rw [← World.get_eq, hdead i] at hi; cases hi
+
+/-- a block is live exactly as long as some handle points at it -/
+theorem live_iff_owned (w : World) (hw : Wf w) (a : Nat) :
+    (∃ b, w.heap.get? a = some b) ↔ ∃ h l, w.get h = some (.heap a l) := by
+  constructor
+  · intro ⟨b, hb⟩
+    obtain ⟨k1, k2, _⟩ := hw.blocks a b hb
+    have hpos : 0 < w.pool.countP (pointsTo a) := by omega
+    obtain ⟨v, hm, hp⟩ := List.countP_pos_iff.1 hpos
+    cases v with
+    | none => simp [pointsTo] at hp
+    | some r =>
+      cases r with
+      | inl raw => simp [pointsTo] at hp
+      | stat s l => simp [pointsTo] at hp
+      | heap a' l =>
+        simp [pointsTo] at hp; subst hp
+        obtain ⟨i, hi⟩ := getH_of_mem hm
+        exact ⟨i, l, hi⟩
+  · intro ⟨h, l, hg⟩
+    obtain ⟨b, hb, _⟩ := hw.handles h _ hg
+    exact ⟨b, hb⟩
+
+/-- the empty world is well-formed -/
 theorem init_wf (st : List Bytes) (hst : ∀ t ∈ st, Valid t ∧ t.length ≤ STATIC_MAX_LEN) :
     Wf { statics := st } := wf_init st hst
+
+-- non-vacuity: a world with a shared, truncated buffer is reachable (and well-formed by `run_wf`)
+example : ((run (fun _ _ => false) {} [.fromStr 0 [0x61,0x62,0x63,0x64,0x65,0x66,0x67,0x68,0x69,0x6a,0x6b,0x6c,0x6d,0x6e,0x6f,0x70,0x71,0x72] true,
+    .clone 1 0, .truncate 1 3 true, .drop 0]).heap.get? 0).map (fun b => (b.rc, b.cap, b.size)) = some (1, 18, 34) := by decide
 
 end LS.C03
